@@ -348,26 +348,25 @@ def _value(ctx, repo, cls):
     if not ok:
         return
     vars_n, vals_n = content.elts[0].id, content.elts[1].id
-    for nm, first in ((vars_n, "[self._variable]"), (vals_n, "[selected_value]")):
-        inits = [s for s in l.body if isinstance(s, ast.Assign) and norm(s.targets[0]) == nm]
-        outer = [s for s in top if isinstance(s, ast.Assign) and norm(s.targets[0]) == nm]
-        ctx.check(len(inits) == 1 and norm(inits[0].value) == first and not outer and l.body.index(inits[0]) < min(i for i, s in enumerate(l.body) if any(c is posts[0] for c in ast.walk(s))),
-                  "R-VALUE", f"`{nm}` is created afresh for each child, starting with the own {'variable' if nm == vars_n else 'selected value'}", vm, (inits or outer or [l])[0],
+    # the two lists as symbolic sequences, built inside the per-child iteration (so: fresh for each child), whichever way they are built
+    # (append loop with try/except KeyError or `if .. in ..`, comprehension, concatenation): see pdv/seqrules.py
+    from .. import seqrules
+    post_st = next(s_ for s_ in l.body if any(c is posts[0] for c in ast.walk(s_)))
+    sep = f"self._children_separator[{cv}]"
+    want = {vars_n: [("elem", "self._variable"), ("map", "$v", sep, frozenset({"$v.name in value_dict"}))],
+            vals_n: [("elem", "selected_value"), ("map", "value_dict[$v.name]", sep, frozenset({"$v.name in value_dict"}))]}
+    seqs = {}
+    for nm in (vars_n, vals_n):
+        sq = seqrules.seq_of(ast.Name(id=nm, ctx=ast.Load()), l.body, post_st)
+        seqs[nm] = sq
+        outer = [s_ for s_ in top if isinstance(s_, ast.Assign) and norm(s_.targets[0]) == nm]
+        ctx.check(sq is not None and bool(sq) and sq[0] == want[nm][0] and not outer,
+                  "R-VALUE", f"`{nm}` is created afresh for each child, starting with the own {'variable' if nm == vars_n else 'selected value'}", vm, (outer or [l])[0],
                   "a list shared between iterations accumulates the separators of earlier children (and is aliased by the messages already posted): a child then receives "
                   "variables outside its separator and fails to slice")
-    inner = [x for x in l.body if isinstance(x, ast.For) and norm(x.iter) == f"self._children_separator[{cv}]"]
-    ok = len(inner) == 1
-    if ok:
-        sv = norm(inner[0].target)
-        txt = norm(inner[0])
-        ok = f"{vals_n}.append(value_dict[{sv}.name])" in txt and f"{vars_n}.append({sv})" in txt
-        # pairs stay aligned: both appends on the same path (value lookup first so that a missing key appends nothing)
-        ffv = FuncFacts(vm.node)
-        a1 = [c for c in ast.walk(inner[0]) if isinstance(c, ast.Call) and norm(c.func) == f"{vals_n}.append"]
-        a2 = [c for c in ast.walk(inner[0]) if isinstance(c, ast.Call) and norm(c.func) == f"{vars_n}.append"]
-        ok = ok and len(a1) == 1 and len(a2) == 1 and a1[0].lineno < a2[0].lineno and (ffv.in_except(a1[0]) == ffv.in_except(a2[0]))
-    ctx.check(ok, "R-VALUE", "the child's message = own (variable, value) + the child's separator variables present in the received assignment, variables and values aligned", vm, inner[0] if inner else l,
-              "the child slices its relation on exactly its separator")
+    ok = all(seqs[nm] == want[nm] for nm in (vars_n, vals_n))
+    ctx.check(ok, "R-VALUE", "the child's message = own (variable, value) + the child's separator variables present in the received assignment, variables and values aligned", vm, l,
+              f"the child slices its relation on exactly its separator (found variables {seqs[vars_n]}, values {seqs[vals_n]})")
 
 
 def ffguard_free(f, call, loop):
